@@ -83,6 +83,50 @@ fn diff_class(rule: &Rule, doc: &MVal, sc: &Scenario, sw: u8, hash_seed: u64) ->
     }
 }
 
+/// An identifier whose entries correspond one to one to needles whatever the optimiser does: a
+/// sequence of >= 2 single-key mappings on one plain field, all non-empty string patterns of the
+/// non-regex kinds (or all regexes) under one case flag, and a document value that is not an
+/// array. For this shape all()/of() over the merged search counts exactly the entries, so the
+/// known counting findings do not apply.
+fn uniform_entries(ident: Option<&serde_yaml::Value>, doc: &MVal) -> bool {
+    let seq = match ident.and_then(|v| v.as_sequence()) {
+        Some(s) if s.len() >= 2 => s,
+        _ => return false,
+    };
+    let mut field: Option<String> = None;
+    let mut class: Option<(bool, bool)> = None;
+    for e in seq {
+        let m = match e.as_mapping() {
+            Some(m) if m.len() == 1 => m,
+            _ => return false,
+        };
+        let (k, v) = m.iter().next().unwrap();
+        let (ks, vs) = match (k.as_str(), v.as_str()) {
+            (Some(k), Some(v)) => (k, v),
+            _ => return false,
+        };
+        if !gen::split_key(ks).0.is_empty() || ks.contains('.') || ks.contains('[') {
+            return false;
+        }
+        if field.get_or_insert_with(|| ks.to_owned()) != ks {
+            return false;
+        }
+        let (icase, body) = match vs.strip_prefix('i') {
+            Some(r) => (true, r),
+            None => (false, vs),
+        };
+        let regex = body.starts_with('?');
+        let core = body.trim_start_matches('?').trim_matches('*');
+        if core.is_empty() || body.starts_with(['>', '<', '=', '"', '\'']) || core.contains('*') {
+            return false;
+        }
+        if *class.get_or_insert((icase, regex)) != (icase, regex) {
+            return false;
+        }
+    }
+    !matches!(field.and_then(|f| doc.get(&f).cloned()), Some(MVal::Arr(_)))
+}
+
 /// For a classical difference: is it reproducible with a condition that uses no all()/of() over an
 /// identifier ("plain"), or only with one ("match")? Counterfactual over the condition only.
 fn match_dependence(sc: &Scenario, doc: &MVal, sw: u8, hash_seed: u64) -> &'static str {
@@ -128,7 +172,7 @@ fn match_dependence(sc: &Scenario, doc: &MVal, sw: u8, hash_seed: u64) -> &'stat
             format!("of({}, 3)", id),
         ] {
             if try_cond(c) {
-                return "match";
+                return if uniform_entries(det.get(id.as_str()), doc) { "match-uniform" } else { "match" };
             }
         }
     }
